@@ -82,7 +82,21 @@ Example C04_example :
   end.
 Proof. vm_compute. reflexivity. Qed.
 
+(* ---- histories ---- *)
+From AV.Model Require Import Interp.
+From AV.Spec Require Import WorldSpec.
+From AV.Proofs Require Import WorldProofs.
+(** WHOLE HISTORIES: the type probes (downcasts of the vector, of element references and of element handles succeed for the element type and for no other; reported type id and layout) and the refused swap with a value of another type (PType, that value destroyed once, nothing else changes) are steps of the history fragment of AV.Props.C01 ([WorldSpec.sp_look], cases OProbeTypes / OSwapWrong): they hold at any point of any history. *)
+Theorem C04_type_checks_in_histories :
+  forall (c : cfg) (w : world) (st : astate) (o : op) (r : sres),
+         cfg_wf c ->
+         WRep c w st ->
+         ufuse (wuw w) = None -> sp_look c st (unext (wuw w)) o = Some r -> res_matches c w (exec c o w) r.
+Proof. exact exec_look. Qed.
+
+(* ---- end histories ---- *)
 Print Assumptions C04_wrong_type_owned_value_rejected.
 Print Assumptions C04_wrong_type_borrowed_value_rejected.
 Print Assumptions C04_right_type_check_transparent.
 Print Assumptions C04_splice_wrong_type.
+Print Assumptions C04_type_checks_in_histories.
